@@ -316,7 +316,7 @@ Section PerGroup.
         + intros [H1 H2]. destruct (memZ q0 forb) eqn:M; [|reflexivity]. apply memZ_In in M. apply (Hforb' q0 Hq) in M.
           rewrite H1, H2 in M. discriminate.
       - cbn [stage_inv] in Hinv. rewrite memZ_In, Hinv. tauto. }
-    rewrite Ewr. destruct (g_resources g) as [|[rc1 a1] rest] eqn:Eres; cbn [map].
+    rewrite Ewr. destruct (g_resources g) as [|[rc1 a1] rest] eqn:Eres; cbn [map fst snd].
     - (* resourceless group *)
       assert (Hroom : room_all p = true) by (unfold room_all; rewrite Eres; reflexivity). rewrite Hroom. cbn [andb].
       set (provs := get_providers_with_root d filtered forb).
@@ -337,7 +337,7 @@ Section PerGroup.
       assert (Hgoal : In (p, root) provs /\ (match rg_tree_root ctx with Some t => root =? t | None => true end) = true
                       /\ (is_nil filtered = true \/ memZ p filtered = true)
                       <-> ex d p /\ root = root_of d p /\ filters_ok p && in_tree_ok d g p = true).
-      { rewrite Hprovs, andb_true_iff. split.
+      { rewrite Hprovs. split.
         - intros [[Hex [Er Hs]] [Ht Hf]]. split; [assumption|]. split; [assumption|].
           apply andb_true_iff. split; [|apply (Htree p root Hex Er); assumption].
           apply (Hsel p Hex). apply andb_true_iff in Hs. destruct Hs as [Hs1 Hs2].
@@ -361,13 +361,15 @@ Section PerGroup.
       assert (Hf1 : forall q0, In q0 f1 <-> ex d q0 /\ has_room d q0 rc1 a1 = true /\ in_tree_ok d g q0 = true /\ filters_ok q0 = true).
       { intro q0. unfold f1, first. destruct (is_nil filtered) eqn:En.
         - rewrite diffZ_In, ids_In. split.
-          + intros [[Hex [H1 H2]] Hn]. repeat split; try assumption. apply (Hsel q0 Hex). rewrite En.
-            apply negb_true_iff. destruct (memZ q0 forb) eqn:M; [apply memZ_In in M; contradiction|reflexivity].
-          + intros [Hex [H1 [H2 H3]]]. split; [auto|]. apply (Hsel q0 Hex) in H3. rewrite En in H3.
+          + intros [[Hex [H1 H2]] Hn]. repeat split; try assumption. pose proof (Hsel q0 Hex) as Hs. cbv iota in Hs.
+            apply Hs. apply negb_true_iff. destruct (memZ q0 forb) eqn:M; [apply memZ_In in M; contradiction|reflexivity].
+          + intros [Hex [H1 [H2 H3]]]. split; [auto|]. pose proof (Hsel q0 Hex) as Hs. cbv iota in Hs. apply Hs in H3.
             apply negb_true_iff in H3. intro Hi. apply memZ_In in Hi. congruence.
         - rewrite interZ_In, ids_In. split.
-          + intros [Hm [Hex [H1 H2]]]. repeat split; try assumption. apply (Hsel q0 Hex). rewrite En. apply memZ_In. assumption.
-          + intros [Hex [H1 [H2 H3]]]. split; [|auto]. apply (Hsel q0 Hex) in H3. rewrite En in H3. apply memZ_In. assumption. }
+          + intros [Hm [Hex [H1 H2]]]. repeat split; try assumption. pose proof (Hsel q0 Hex) as Hs. cbv iota in Hs.
+            apply Hs. apply memZ_In. assumption.
+          + intros [Hex [H1 [H2 H3]]]. split; [|auto]. pose proof (Hsel q0 Hex) as Hs. cbv iota in Hs. apply Hs in H3.
+            apply memZ_In. assumption. }
       rewrite filter_In, memZ_In, fold_inter_In, Hf1. cbn [fst].
       assert (Hrest : (forall x, In x (map L rest) -> In p (map fst (snd x))) <->
                       (forall y, In y rest -> ex d p /\ has_room d p (fst y) (snd y) = true /\ in_tree_ok d g p = true)).
